@@ -216,6 +216,75 @@ def run_repair_fault(c):
     return Out(labels, True)
 
 
+# ---------------------------------------------------------------- the device was power-cycled
+
+def power_cycle_cases(tier, seed):
+    from vlib.device import BOOT
+    return [{"platform": plat, "start": start, "cycles": n, "follow": f, "kind": kind}
+            for plat in ("Ledger", "SGX") for start in (BOOT, SIGNER) for n in (1, 2)
+            for f in ("state", "getPubKey", "sign_unauth") for kind in ("read", "write")]
+
+
+def run_power_cycle(c):
+    """A manager that holds the PIN; the link fails because the device was power-cycled, so the
+    repairing request finds it locked in the bootloader: the full bring-up (unlock included)
+    is repeated before the command, as often as that happens."""
+    import os
+    import tempfile
+    from vlib.device import BOOT
+    import ledger.hsm2dongle as hd
+    from sgx.hsm2dongle import HSM2DongleSGX
+    from ledger.protocol import HSM2ProtocolLedger
+    from ledger.pin import FileBasedPin
+    from comm.platform import Platform
+    w = mw.default_world()
+    w.adv_plan = {"final": "total"}
+    w.sig_der = c04.DER
+    w.mode = c["start"]
+    w.unlocked = c["start"] == SIGNER
+    w.pin = b"abcd1234"
+    w.post_mode = SIGNER
+    d = tempfile.mkdtemp(prefix="verif-c11-")
+    pf = os.path.join(d, "pin.txt")
+    with open(pf, "wb") as f:
+        f.write(w.pin)
+    labels = ["power-cycle", "power-cycle:" + c["platform"]]
+    mw.install(w)
+    Platform.set(Platform.LEDGER if c["platform"] == "Ledger" else Platform.SGX)
+    try:
+        dongle = hd.HSM2Dongle(False) if c["platform"] == "Ledger" else \
+            HSM2DongleSGX("h", 1, False)
+        p = HSM2ProtocolLedger(FileBasedPin(pf, w.pin, False), dongle)
+        p.initialize_device()
+        h = mw.handler(p)
+        for n in range(c["cycles"]):
+            where = "%r, power cycle %d" % (c, n + 1)
+            w.faults[w.nex] = c["kind"]
+            rep, exc, ev, out = serve(h, w, ("v5", "getPubKey"))
+            if exc is not None or rep is None or rep["errorcode"] != -905:
+                raise Violation("faulted-request-code", "%s: %r %r" % (where, out[:60], exc))
+            w.mode = BOOT
+            w.unlocked = False
+            rep, exc, ev, out = serve(h, w, ("v5", c["follow"]))
+            evs = events(ev)
+            if exc is not None:
+                raise Violation("follow-up-shutdown", "%s: the request that found the device "
+                                "locked in the bootloader raised %s: %s" % (
+                                    where, type(exc).__name__, str(exc)[:200]))
+            if rep is None or rep["errorcode"] != 0:
+                raise Violation("follow-up-not-served", "%s: -> %r, events %r" % (
+                    where, out[:80], evs[:14]))
+            if "connect" not in evs or not any(e[0] == "unlock_attempt" for e in ev):
+                raise Violation("repair-sequence", "%s: no re-connection / unlock in %r" % (
+                    where, evs[:14]))
+            labels.append("repaired-through-bootloader")
+    finally:
+        Platform.set(Platform.LEDGER)
+        import shutil
+        shutil.rmtree(d, True)
+    return Out(labels, True)
+
+
 # ---------------------------------------------------------------- histories with several faults
 
 @st.composite
@@ -311,6 +380,7 @@ def run_history(c):
 REQUIRED_LABELS = {t: ["kind:write", "kind:read", "kind:timeout", "repaired",
                        "retry-after-connect-failure", "exempt-exit-step", "history",
                        "repair-retried-after-failed-repair", "repair-fault:timeout",
+                       "repaired-through-bootloader", "power-cycle:SGX",
                        "faults:2"] + ["req:%s/%s" % k for k in c04.PLAIN_NAMES]
                    for t in ("quick", "thorough")}
 
@@ -321,6 +391,9 @@ def stages(tier):
             EnumStage("repair-faults", repair_fault_cells, run_repair_fault,
                       exhaustive={"quick": True, "thorough": True},
                       budget_s={"quick": 60, "thorough": 300}),
+            EnumStage("power-cycled", power_cycle_cases, run_power_cycle,
+                      exhaustive={"quick": True, "thorough": True},
+                      budget_s={"quick": 60, "thorough": 120}),
             HypStage("histories", lambda t: histories(t), run_history,
                      {"quick": 100, "thorough": 1500},
                      budget_s={"quick": 60, "thorough": 600})]
